@@ -292,6 +292,12 @@ def run(F, rep, tier):
                 rep.ok(r4, key, "matched (%s)" % par.get("k"))
     rep.floor(r4, "lock acquisitions in the server", nlocks, 7)
     tck_tag_rule(F, rep)
+    tck_text_rule(F, rep)
+    # premise of "the endpoints behave as the same sequence of workspace operations": the operations themselves keep the workspace consistent (C17)
+    from props import c17
+    expl = rep.explanation
+    c17.run(F, rep, tier)
+    rep.explanation = expl + " The structural rules of the Workspace operations (R17.x, property C17) are re-evaluated as premises."
     shared_state_rule(F, rep)
 
 
@@ -433,3 +439,54 @@ def shared_state_rule(F, rep):
         rep.missing_anchor(rid, "creation of the RwLock<Workspace> in start_server")
     else:
         rep.ok(rid, "factory", "RwLock<Workspace> is created once in start_server and cloned (Arc) into every worker's App")
+
+
+def tck_text_rule(F, rep):
+    """R18.7: strings round-trip unchanged: the DTO reader hands the `text` member to Value::String as it is (cloned / converted to String, nothing
+    else - no trim, case or replace), and the writers put the string payload of the value into the DTO as it is."""
+    import hirflow
+    rid = rep.rule("R18.7", "TCK strings pass unchanged between DTO text and Value::String in both directions (only clone / to_string conversions on the way)")
+    TRANSPARENT = ("clone", "to_string", "to_owned", "as_str", "deref", "as_ref", "borrow", "into", "from", "as_deref")
+
+    def base(d):
+        """strip representation-preserving conversions; returns the underlying descriptor"""
+        while isinstance(d, tuple) and d:
+            if d[0] == "via" and d[1] in TRANSPARENT:
+                d = d[2]
+            elif d[0] == "un" and d[1] in ("*", "&"):
+                d = d[2]
+            elif d[0] == "call" and isinstance(d[1], str) and d[1].split("::")[-1] in TRANSPARENT and d[2]:
+                d = d[2][0]
+            elif d[0] == "unwrap" and d[1].endswith(("Option::Some", "Value::String")):
+                d = d[2]
+            else:
+                break
+        return d
+    n = 0
+    for name, h in sorted(F.hir.items()):
+        if not h["_crate"].startswith("dmntk_server") or "dto" not in name:
+            continue
+        fl = hirflow.Flow(h)
+        for c, args, cond, line, node in fl.calls:
+            # reader: Value::String(<text>)
+            if (c or "").endswith("values::Value::String") and "Ctor" in (node.get("dk") or "") and args:
+                b = base(args[0])
+                n += 1
+                key = "reader:%s" % name.split(" for ")[-1].split(">::")[0].split("::")[-1][:40]
+                if isinstance(b, tuple) and b and b[0] == "field" and b[1] == "text":
+                    rep.ok(rid, key, "Value::String(text) takes the DTO text unchanged")
+                else:
+                    rep.violation(rid, key, "the string value is built from %s, not from the DTO's text member as it is: leading / trailing white space or other characters are altered on the way in"
+                                  % str(b)[:120], "%s:%s" % (h["file"], line))
+            # writers: SimpleDto::some("xsd:string", <payload>)
+            if (c or "").endswith("SimpleDto::some") and len(args) == 2 and args[0] == ("lit", "xsd:string"):
+                b = base(args[1])
+                n += 1
+                key = "writer:%s:%d" % (name.split(" for ")[-1].split(">::")[0].split("::")[-1][:40], line and 0)
+                ok = isinstance(b, tuple) and b and (b[0] in ("arg", "local") or (b[0] == "unwrap") or (b[0] == "field"))
+                ok = ok or (isinstance(b, tuple) and b and b[0] == "unwrap")
+                if ok and "call" not in repr(b):
+                    rep.ok(rid, key, "the string payload is written unchanged")
+                else:
+                    rep.violation(rid, key, "the xsd:string text is computed by %s instead of being the string payload as it is" % str(b)[:120], "%s:%s" % (h["file"], line))
+    rep.floor(rid, "string conversions between DTO and Value", n, 3)
